@@ -39,9 +39,29 @@ def snap(x):
         return tuple(snap(y) for y in x)
     if hasattr(x, 'A') and hasattr(x, 'qD'):
         return mpsgen.snapshot(x)
+    if type(x).__name__ == 'AutOp':
+        return autop_snap(x)
+    if type(x).__name__ == 'OpTree':
+        return tree_snap(x)
+    if type(x).__name__ == 'OpChain':
+        return (tuple(x.oids), tuple(x.qnums), x.coeff, x.istart)
     if hasattr(x, 'nodes') and hasattr(x, 'edges'):
         return graph_snap(x)
     return repr(x)
+
+
+def autop_snap(a):
+    def tab(x):
+        return tuple(x) if isinstance(x, list) else ('callable', tuple(tuple(x(i)) if isinstance(x(i), list) else x(i) for i in range(6)))
+    return (tuple((k, n.nid, tuple(n.eids[0]), tuple(n.eids[1]), n.qnum) for k, n in a.nodes.items()),
+            tuple((k, e.eid, tuple(e.nids), tab(e.opics), e.active if isinstance(e.active, bool) else tuple(e.active(i) for i in range(6)))
+                  for k, e in a.edges.items()), tuple(a.nid_terminal))
+
+
+def tree_snap(t):
+    def node(n):
+        return (n.qnum, tuple((e.oid, e.coeff, node(e.node)) for e in n.children))
+    return (t.istart, node(t.root))
 
 
 def graph_snap(g):
@@ -57,6 +77,34 @@ def graph_parts(g):
     for e in g.edges.values():
         ids |= {id(e), id(e.nids), id(e.opics)}
     ids.add(id(g.nid_terminal))
+    return ids
+
+
+def operand_parts(x):
+    """identities of mutable lists reachable from a graph-construction operand (automaton, chains, trees)"""
+    ids = set()
+    if type(x).__name__ == 'AutOp':
+        for n in x.nodes.values():
+            ids |= {id(n), id(n.eids[0]), id(n.eids[1])}
+        for e in x.edges.values():
+            ids |= {id(e), id(e.nids)}
+            if isinstance(e.opics, list):
+                ids.add(id(e.opics))
+            else:
+                for i in range(6):
+                    ids.add(id(e.opics(i)))
+    elif isinstance(x, (list, tuple)):
+        for y in x:
+            ids |= operand_parts(y)
+    elif type(x).__name__ == 'OpChain':
+        ids |= {id(x.oids), id(x.qnums)}
+    elif type(x).__name__ == 'OpTree':
+        def node(n):
+            out = {id(n), id(n.children)}
+            for e in n.children:
+                out |= {id(e)} | node(e.node)
+            return out
+        ids |= node(x.root)
     return ids
 
 
@@ -116,6 +164,14 @@ def call_cases(rng):
         gA, gB = oglib.build_graph(rawA), oglib.build_graph(rawB)
         if all(gA.nodes[gA.nid_terminal[k]].qnum == gB.nodes[gB.nid_terminal[k]].qnum for k in (0, 1)):
             yield 'OpGraph.add', lambda a, b: a.add(b), [gA, gB]
+        # graph construction from an automaton / chain list / tree list: operands untouched, result unshared,
+        # also after the result is simplified / added to / flipped later
+        aop = oglib.gen_automaton(rng, L=int(rng.integers(1, 4)))
+        autop = oglib.build_autop(aop['nodes'], aop['edges'], aop['term'])
+        yield 'OpGraph.from_automaton', lambda a, L=aop['length']: ptn.OpGraph.from_automaton(a, L), [autop]
+        chains = [ptn.OpChain([int(x) for x in rng.integers(0, 3, ln)], [0] * (ln + 1), float(rng.choice([1.0, 0.5, -2.0])), 0)
+                  for ln in rng.integers(1, 4, int(rng.integers(1, 4)))]
+        yield 'OpGraph.from_opchains', lambda c: ptn.OpGraph.from_opchains(c, 3, 0), [chains]
         yield 'OpGraph.as_matrix', lambda a: a.as_matrix({i: np.identity(2) * (i + 1) for i in range(-1, 12)}), [gA]
         yield 'MPO.from_opgraph', lambda a: ptn.MPO.from_opgraph([0, 0], a, {i: np.identity(2) * (i + 1) for i in range(-1, 12)}), [gA]
     except Exception:
@@ -141,7 +197,11 @@ def observe(fn, args):
     ra = arrays_in(res) if (hasattr(res, 'A') and hasattr(res, 'qD')) else []
     shares = any(np.shares_memory(x, y) for x in ra for a in args for y in arrays_in(a))
     # operator graphs: mutable parts (node / edge objects and their lists) of different graphs must be distinct objects
-    graphs = [a for a in args if hasattr(a, 'nodes') and hasattr(a, 'edges')]
+    if hasattr(res, 'nodes') and hasattr(res, 'edges') and type(res).__name__ == 'OpGraph':
+        for a in args:
+            if type(a).__name__ != 'OpGraph' and graph_parts(res) & operand_parts(a):
+                shares = True
+    graphs = [a for a in args if type(a).__name__ == 'OpGraph']
     for i in range(len(graphs)):
         for j in range(i + 1, len(graphs)):
             if graph_parts(graphs[i]) & graph_parts(graphs[j]):
@@ -237,6 +297,19 @@ def oracle_case(rng):
             if graph_parts(g) & graph_parts(other):
                 return 'OpGraph.add: the updated graph shares node/edge objects with the other graph'
         if inplace:
+            continue
+        if type(res).__name__ == 'OpGraph' and nm.startswith('OpGraph.from_'):
+            try:
+                res.simplify()
+                res.add(copy.deepcopy(res))
+                res.flip()
+                for e in res.edges.values():
+                    e.opics.append((99, 1.0))
+            except Exception:
+                pass
+            for i, a in enumerate(args):
+                if snap(a) != before[i]:
+                    return f'{nm}: argument {i} changed after simplify()/add()/flip()/in-place edits of the returned graph (shared state)'
             continue
         what = mutate_result(rng, res)
         if what is None:
